@@ -38,6 +38,122 @@ CHECKS = {
     ),
 }
 
+CHECKS.update({
+    "C04": dict(
+        technique="runtime monitoring: LR driver under a step/configuration monitor; client-boundary history of Parser.parse vs reference chart; (state, lookahead) cell coverage measured by the scanner hook",
+        text="Exploration over productive grammars x 8 option combinations x all inputs up to the bound with layout: accepted => sentence and the tree is a derivation reading the input; "
+        "on deterministic tables (all cells single, strategies off) every input has <= 1 derivation, every sentence is accepted and GLR returns exactly the LR tree.",
+        note="trusted: reference chart; LR divergence under resolved conflicts is KF-C11-1 and judged by C11/C10",
+        ref="5/C04",
+    ),
+    "C06": dict(
+        technique="runtime monitoring: parse results vs an independent precedence-climbing parser; sys.monitoring line coverage of create_table's conflict resolution branches",
+        text="Exploration over random operator tables (1-6 operators, 1-6 levels, left/right, shuffled alternatives, parentheses) x random and corrupted expressions: LR with "
+        "strategies off constructs and equals precedence climbing, GLR gives that single tree, the stratified LALR(1) grammar is unchanged by added priorities/associativities.",
+        note="trusted: climb() as the conventional parse; well_formed() as the expression language",
+        ref="5/C06",
+    ),
+    "C07": dict(
+        technique="runtime monitoring: every call of the real scanner (Parser._next_tokens) is recorded by a hook and replayed against the documented rule applied naively with independent matchers",
+        text="Exploration: millions of token-choice events over grammars mixing string / regex / keyword / custom recognizers with priorities, prefer, finish/nofinish, several expected "
+        "sets, lexical_disambiguation on/off, ignore_case, custom_token_recognition pass-through; each event's result must equal the documented winner / tie set / nothing.",
+        note="events with an explicit finish/nofinish mark on a matching terminal are judged for admissibility only (user override)",
+        ref="5/C07",
+    ),
+    "C08": dict(
+        technique="runtime monitoring: invariant walk over every node of every produced tree; positions seen by instrumented actions and obj results compared with node positions",
+        text="Exploration over grammars with empty alternatives x sentences with injected ws / comment layout, LR and GLR, ws and LAYOUT-rule layout, ignore_case: integer in-bounds positions, "
+        "leaf value == input slice, ordered disjoint siblings, child within parent, lossless leaves, action/obj positions == node positions.",
+        note="KF-C08-2 attributed by gap canonicalisation (GLR, layout, empty node, structural failures only)",
+        ref="5/C08",
+    ),
+    "C09": dict(
+        technique="runtime monitoring: instrumented actions record the call tree on three evaluation routes; compared with each other and with an independent evaluation of the reference derivation tree",
+        text="Exploration over grammars with random action tables (none / callable / per-alternative list), '=' and '?=' named matches, terminal actions, default obj; on-the-fly == "
+        "call_actions(tree) == GLR call_actions, and == the specification when the input has one derivation; built-in + * ? separator actions vs documented flat lists.",
+        note="trusted: 30-line evaluator over the reference chart tree",
+        ref="5/C09",
+    ),
+    "C10": dict(
+        technique="runtime monitoring: exception type and attributes at the client boundary vs a scannerless Earley recogniser; GSS closure monitor re-run for attribution",
+        text="Exploration over all non-sentences up to the bound (empty string, trailing layout, multi-line, list inputs): SyntaxError only, position == farthest viable position, "
+        "line/column recomputed, 'end of file' iff at end, str(error) renders, GLR symbols_expected == Earley expected set; LR deterministic tables judged fully, resolved tables by exception type.",
+        note="STOP excluded from symbols_expected comparison; non-overlapping vocabularies",
+        ref="5/C10",
+    ),
+    "C11": dict(
+        technique="runtime monitoring: logical progress monitors (LR configuration repetition, reductions-without-shift bound, recovery stall, GLR reduce/recovery budgets) + span and coverage checks on parser.errors",
+        text="Exploration over corrupted sentences and arbitrary strings with junk, default / skipping / injecting strategies, LR and GLR: termination by logical budgets, "
+        "in-bounds ordered disjoint spans, trees are derivations over input tokens, LR character coverage exactly once, accepted inputs unchanged and error free.",
+        note="KF-C11-1 attributed by the LR monitor signature on non-deterministic tables of nullable/cyclic grammars",
+        ref="5/C11",
+    ),
+    "C12": dict(
+        category="fault_enumeration",
+        technique="runtime monitoring with fault injection: operation histories over a grammar directory under a create_load_table/load/save/create monitor and an open() audit hook; byte-prefix truncation and a real writer killed after k bytes; logical mtime clock",
+        text="Fault enumeration: histories {construct under varying options, edit root/import, touch, age the cache, force_create, truncate to k bytes, kill writer after k bytes} - after every "
+        "construction the captured table and probe parses must equal a cache-free construction; round trips (serialisable, conflicts, dynamic marks, byte-identical re-save).",
+        note="KF-C12-1 attributed only when the monitor saw a load of a file last written under other options whose content equals what those options produce for the current files",
+        ref="5/C12",
+    ),
+    "C13": dict(
+        technique="runtime monitoring: sugared grammar vs the documented plain-BNF expansion written by the harness, both executed by the real parser on every input up to the bound",
+        text="Exploration over random rule shapes (? * + separators, groups, repeated / nested groups, nonterminal repetition, shared bases): GLR acceptance, result sets, tree counts and "
+        "LR construction/results equal the expansion; greedy templates: same language and the single maximal tree.",
+        note="KF-C13-1/3/4 static or result-shape classifiers; KF-C13-2 witness only",
+        ref="5/C13",
+    ),
+    "C14": dict(
+        technique="runtime monitoring: metamorphic oracle over two independently drawn layouts of the same token string; ws parameter vs ws-equivalent LAYOUT rule compared node by node",
+        text="Exploration over grammars with single-character terminals x all strings up to the bound x ws / LAYOUT-rule / comment layouts, LR and GLR: acceptance, results and "
+        "corresponding error positions invariant; ws vs LAYOUT rule identical incl. positions and layout_content; augmented production is the main start after building the layout sub-parser.",
+        note="layout independent token boundaries by construction",
+        ref="5/C14",
+    ),
+    "C15": dict(
+        technique="runtime monitoring: operation histories over one Grammar object with fault injection (exceptions from actions, recognizers, table construction), shared-state snapshots after every operation, probes vs fresh objects and vs a fresh interpreter",
+        text="Exploration over histories of parse / failing parse / recovery / raising action / raising recognizer / other parser builds (LALR, SLR, GLR, LAYOUT) / failed builds / unrelated grammars: "
+        "probe outcomes equal freshly built objects; augmented production, FIRST cache, EMPTY.action unchanged.",
+        note="state left by an injected fault inside table construction is judged through probes only",
+        ref="5/C15",
+    ),
+    "C16": dict(
+        technique="runtime monitoring: the same workload recorded in N interpreter processes with different PYTHONHASHSEED and checked offline for identical records",
+        text="Exploration over grammars whose terminal names reorder under different hash seeds, with R/R and S/R cells and ambiguous forests: table sha256, saved bytes, conflict reports "
+        "and to_str() of forest[0..n) identical across 4 (quick) / 16 (thorough) processes and across two constructions in one process.",
+        note="children differ only in PYTHONHASHSEED",
+        ref="5/C16",
+    ),
+    "C17": dict(
+        technique="runtime monitoring: forests / trees of consume_input=False parsers vs the reference chart's union over sentence prefixes; GSS closure + scanner monitors for attribution",
+        text="Exploration over acyclic grammars x all inputs up to the bound (sentences with continuations, layout, overlap): GLR forest == all derivations of all sentence prefixes each once, "
+        "SyntaxError iff none; LR result is a derivation of a sentence prefix; lexical_disambiguation on and off.",
+        note="KF-C02-1 / KF-C03-1 / KF-C17-1 attributed through the monitors only",
+        ref="5/C17",
+    ),
+    "C18": dict(
+        technique="runtime monitoring: the dynamic filter handed to the parser is the monitor; its call history is checked online against the marked-decision specification and offline against the result",
+        text="Exploration over operator grammars with random dynamic marks, accept-all / reject-one-production / precedence-encoding filters, LR and GLR: single initial all-None call, only "
+        "marked decisions, subresult arity, every dynamic reduction/leaf in the result has an accepted call, accept-all == no filter, reject-P == unfiltered forest minus P, precedence filter == climbing.",
+        note="behaviour when a filter rejects every action is not judged",
+        ref="5/C18",
+    ),
+    "C19": dict(
+        technique="runtime monitoring: construction outcome of inline vs declared forms and parser behaviour vs a literal scanner + reference chart; scanner events vs the documented order for keyword terminals",
+        text="Exploration over terminal texts with regex metacharacters, quotes, backslashes, escapes, names of other symbols (inline vs declared), and over KEYWORD regexes x word-like / non-word-like "
+        "strings x ignore_case: literal matching, inline == declared, whole-word rule exactly for strings the KEYWORD regex fully matches, keywords rank as strings.",
+        note="KF-C19-1..3 static predicates on the terminal texts + 'inline form raises, declared form constructs'",
+        ref="5/C19",
+    ),
+    "C20": dict(
+        technique="runtime monitoring: modular grammars written to a scratch directory and loaded by the real importer vs the flattened grammar built by the harness (reference chart + real parser on the flat text)",
+        text="Exploration over chain / fan / diamond / cycle / mixed import graphs with aliases, nested qualified references, repetition on imported rules and root overrides: language, "
+        "results (LR and GLR), qualified names and production counts equal the flattened grammar.",
+        note="KF-C20-1 static predicate (a user of the overridden rule spells a non-canonical qualified name)",
+        ref="5/C20",
+    ),
+})
+
 NOT_APPLICABLE = {}
 
 
